@@ -765,6 +765,26 @@ func (r *Report) guardSite(rule string, u *Unit, s *flow.Site, goal *flow.F, psi
 		construct += " (at block entry)"
 	}
 	res := flow.Implies(pc, goal)
+	if !res.Holds && res.Undecided == "" {
+		// second look, relative to this site: a local defined by an observer call keeps its name when *some* use of it lies
+		// behind something that may change what the call reads (the decision is per local, so that a value prints the same
+		// everywhere). For the condition of one site only the stretch from the definition to this site matters: if that is
+		// clean, the local stands for the call here, and in every test on the way.
+		u.W.siteRel, u.W.siteRelUnit = s, u
+		saved := u.pc
+		u.pc = map[*flow.Block]*flow.F{}
+		pc2 := u.SitePC(s)
+		if atEntry {
+			pc2 = u.BlockEntryPC(s)
+		}
+		u.pc = saved
+		u.W.siteRel, u.W.siteRelUnit = nil, nil
+		if r2 := flow.Implies(pc2, goal); r2.Holds && r2.Undecided == "" {
+			if f := flow.Implies(pc2, flow.False()); !f.Holds {
+				pc, res = pc2, r2
+			}
+		}
+	}
 	// a contradictory path condition makes every guard hold vacuously: that is a limit of the condition tracking (the
 	// same observer called before and after a change), not a proof
 	if res.Holds && res.Undecided == "" {
